@@ -94,6 +94,11 @@ class ExprMixin:
         raise Unsupported(f"type {ty}")
 
     def assume_axiom(self, c):
+        """a fact about freshly introduced symbols (lengths are non-negative, the defining property of an opaque result):
+        unconditional, so it survives the push/pop of guarded evaluation and the reset at a modular loop head"""
+        if z3.is_true(c):
+            return
+        self.def_axioms.append(c)
         self.assume(c)
 
     def get_field(self, obj: VObj, name: str, old=False):
@@ -387,6 +392,10 @@ class ExprMixin:
         if isinstance(a, VInt) and isinstance(b, VBool) or isinstance(a, VBool) and isinstance(b, VInt):
             return VInt(z3.If(c, self.as_int(a), self.as_int(b)))
         if isinstance(a, VStr) and isinstance(b, VStr):
+            if a.kind == "lit" and len(a.a) == 1 and b.kind == "chr":
+                a = VStr.chr(z3.IntVal(ord(a.a)))
+            if b.kind == "lit" and len(b.a) == 1 and a.kind == "chr":
+                b = VStr.chr(z3.IntVal(ord(b.a)))
             if a.kind == "chr" and b.kind == "chr":
                 return VStr.chr(z3.If(c, a.a, b.a))
             if a.kind == "lit" and b.kind == "lit" and len(a.a) == len(b.a) == 1:
@@ -551,6 +560,13 @@ class ExprMixin:
         if not self.feasible():
             raise PathEnd()
 
+    def spec_undefined(self, what):
+        """inside a contract clause an undefined term must not silently end the path (the obligations of the path would
+        vanish): the clause is ill-formed on this path - guard it with implies(), whose consequent is only evaluated when
+        the antecedent is feasible"""
+        if self.spec_mode:
+            raise ContractError(f"clause undefined on a feasible path: {what}")
+
     def implicit_raise(self, exc, node, fr, ok, info=""):
         self.safe_or_raise(z3.BoolVal(bool(ok)), exc, node, fr)
         raise PathEnd()
@@ -614,6 +630,7 @@ class ExprMixin:
                     k = i.as_long()
                     if -len(p.items) <= k < len(p.items):
                         return p.items[k]
+                    self.spec_undefined("index out of range of a literal list")
                     self.safe_or_raise(z3.BoolVal(False), "IndexError", node, fr, "subscript")
                     raise PathEnd()
                 n = len(p.items)
@@ -667,6 +684,7 @@ class ExprMixin:
                 k = i.as_long()
                 if -len(base.items) <= k < len(base.items):
                     return base.items[k]
+                self.spec_undefined("index out of range of a tuple (e.g. T[-1] where no token was appended)")
                 self.safe_or_raise(z3.BoolVal(False), "IndexError", node, fr, "subscript")
                 raise PathEnd()
             raise Unsupported("symbolic index into tuple")
@@ -696,6 +714,7 @@ class ExprMixin:
             if isinstance(idx, VStr) and idx.kind == "lit":
                 if idx.a in p.items:
                     return p.items[idx.a]
+                self.spec_undefined("missing key of a literal dict")
                 self.safe_or_raise(z3.BoolVal(False), "KeyError", node, fr, "subscript")
                 raise PathEnd()
             raise Unsupported("dict key")
